@@ -294,7 +294,9 @@ func c20FxPatterns(res *Result, tr *ndWriter) {
 					return
 				}
 				if rl != rlab {
-					res.drift("the sender's label could not be forced (got %x, wanted %x)", rl[:], rlab[:])
+					// this implementation does not take the label from crypto/rand.Reader at call time (a buffered
+					// pool, say): the chosen values cannot be reached from outside; the random runs still apply
+					res.Class = "fx-label-patterns:not-forceable"
 					return
 				}
 				d := rl
